@@ -26,6 +26,8 @@ def run_mutant(patch, prop, tier="quick"):
             if m:
                 expect = m.group(1)
                 break
+    if expect is None and os.sep + "neutral" + os.sep in os.path.abspath(patch):
+        expect = "none"
     patch = os.path.abspath(patch)
     d = scratch_copy()
     try:
@@ -46,8 +48,18 @@ def run_mutant(patch, prop, tier="quick"):
         shutil.rmtree(d, ignore_errors=True)
 
 
+NEUTRAL_GROUPS = {"R1": ("C01", "C02", "C05", "C13"), "R2": ("C03", "C04", "C12", "C17"), "R3": ("C06", "C14", "C16", "C20"),
+                  "R4": ("C08", "C11", "C07", "C19"), "R5": ("C09", "C10", "C15", "C18")}
+
+
 def corpus(prop):
-    return sorted(glob.glob(os.path.join(VERIF, "mutants", prop, "*.patch")))
+    """stored breaking edits of the property (mutants/<prop>/*.patch, `# expect: <rule>`) and the
+    behaviour-preserving refactorings written for its anchors (neutral/<group>/r*.diff: must stay silent)"""
+    out = sorted(glob.glob(os.path.join(VERIF, "mutants", prop, "*.patch")))
+    for g, props in NEUTRAL_GROUPS.items():
+        if prop in props:
+            out += sorted(glob.glob(os.path.join(VERIF, "neutral", g, "r*.diff")))
+    return out
 
 
 def run_corpus(prop, rep):
